@@ -129,6 +129,9 @@ func classes(login, pass string) []hdrClass {
 		// that folds case)
 		{"right-header-case-swapped", []string{"Basic " + swapCase(right)}, true},
 		{"right-header-lower-cased", []string{"Basic " + strings.ToLower(right)}, true},
+		// the right characters with the colon in another place (equal only to a comparison of login and password glued together)
+		{"colon-shifted-left", basic(login[:len(login)-1] + ":" + login[len(login)-1:] + pass), false},
+		{"colon-shifted-right", basic(login + pass[:1] + ":" + pass[1:]), false},
 		// thorough tier
 		{"empty", []string{""}, true},
 		{"bearer-right-b64", []string{"Bearer " + right}, true},
@@ -171,7 +174,7 @@ func classes(login, pass string) []hdrClass {
 	return out
 }
 
-const quickClasses = 11
+const quickClasses = 13
 
 // ---------------------------------------------------------------------------------------
 // the rig
@@ -667,10 +670,17 @@ func runInstance(c *run.Ctx, bin string, cfg instCfg, flt *filter, st *stats, ro
 	rng.Shuffle(len(targets), func(i, j int) { targets[i], targets[j] = targets[j], targets[i] })
 
 	right := []string{"Basic " + b64(cfg.Login+":"+cfg.Pass)}
+	// values of a trailing path variable as a client may write them: plain, and ending like the name of a static file
+	// (a rule that lets "assets" through by the look of the path must not let these through)
+	assetEnds := []string{"", ".js", ".css", ".png", ".json", ".map", ".ico", ".woff2", ".html", ".svg"}
+	var urlSeq atomic.Int64
 	url := func(t *target, authorized bool) string {
 		u := in.base + concretePath(t.r.Template)
 		if t.r.Prefix {
 			u += "verifx"
+		}
+		if !authorized && (strings.HasSuffix(t.r.Template, "}") || t.r.Prefix) {
+			u += assetEnds[int(urlSeq.Add(1))%len(assetEnds)]
 		}
 		if authorized {
 			if q := authQuery[t.r.Template]; q != "" {
